@@ -46,6 +46,9 @@ def gen(tier, rng):
             out.append(Case("k_shiftl", lv, [flat(tagged(K, rng, 0, 1023, r))], T))
             out.append(Case("l_ntt", lv, [flat(small(L))], T)); out.append(Case("k_ntt", lv, [flat(small(K))], T))
             out.append(Case("l_invntt", lv, [flat(small(L))], T)); out.append(Case("k_invntt", lv, [flat(small(K))], T))
+            # forward transform of unreduced vectors (coefficients at and beyond +-q; the transform itself never reduces its input)
+            wide = lambda n: plant(tagged(n, rng, -4 * Q, 4 * Q, r), rng, [Q, -Q, Q + 1, 2 * Q, -2 * Q - 1])
+            out.append(Case("l_ntt", lv, [flat(wide(L))], T + ["unreduced-input"])); out.append(Case("k_ntt", lv, [flat(wide(K))], T + ["unreduced-input"]))
             a = tagged(1, rng, -9 * Q + 1, 9 * Q - 1, r)[0]
             out.append(Case("l_pointwise_poly", lv, [a, flat(tagged(L, rng, -9 * Q + 1, 9 * Q - 1, r))], T))
             out.append(Case("k_pointwise_poly", lv, [a, flat(tagged(K, rng, -9 * Q + 1, 9 * Q - 1, r))], T))
@@ -68,6 +71,12 @@ def gen(tier, rng):
             out.append(Case("k_decompose", lv, [flat(plant(std(K), rng, bvals)), flat(dirty)], T + ["boundary-values"]))
             out.append(Case("k_power2round", lv, [flat(plant(std(K), rng, [0, 0, 1, 4095, 4096, 4097, 8191, 8192, Q - 1])), flat(dirty)], T + ["boundary-values"]))
             out.append(Case("k_make_hint", lv, [flat(tagged(K, rng, -2 * p.g2 + 1, 2 * p.g2 - 1, r)), flat(tagged(K, rng, 0, p.m - 1, r))], T))
+            # joint boundary values of (low part, high part) at the same index
+            v0j = tagged(K, rng, -p.g2 + 2, p.g2 - 2, r); v1j = tagged(K, rng, 0, p.m - 1, r)
+            for comp in range(K):
+                for (x0, x1) in ((-p.g2, 0), (-p.g2, 1), (-p.g2, p.m - 1), (p.g2, 0), (p.g2, 3), (-p.g2 - 1, 0), (p.g2 + 1, 0), (0, 0)):
+                    i = rng.randrange(256); v0j[comp][i] = x0; v1j[comp][i] = x1
+            out.append(Case("k_make_hint", lv, [flat(v0j), flat(v1j)], T + ["joint-boundary"]))
             out.append(Case("k_use_hint", lv, [flat(std(K)), flat(tagged(K, rng, 0, 1, r))], T))
             # realistic (sparse) hint vectors, incl. components without any hint and the all-zero vector
             for kind in ("sparse", "empty-component", "all-zero", "single"):
